@@ -66,6 +66,8 @@ func init() {
 		RuleK10c(r, c)
 		RuleBCD(r, p)
 		RuleListenSibling(r, p)
+		// a date-time field is the protocol decoding of its digits only if it is built as a civil time in the local zone
+		RuleZone(r, p, c)
 	}
 
 	checks["C03"] = func(r *Report, p *Program, tier string) {
@@ -147,6 +149,11 @@ func init() {
 		RuleTransport(r, p, aspectSet{"T3": true, "T4": true, "T9": true, "T10": true, "T12": true})
 		RuleImmutable(r, p)
 		RuleG1(r, p)
+		// the event handed from the receive loop to the dispatch goroutine is allocated per datagram: a shared one
+		// is written by one goroutine while the other reads it
+		r.Only = map[string]bool{"LS1": true, "LS2": true}
+		RuleListen(r, p)
+		r.Only = nil
 	}
 
 	checks["C09"] = func(r *Report, p *Program, tier string) {
@@ -193,6 +200,8 @@ func init() {
 		r.Assumptions = []string{"go/ssa is faithful", "strings.Builder appends in call order"}
 		RuleBCD(r, p)
 		RuleK10Only(r, p, map[string]bool{"K10a": true})
+		// both functions are functions of their argument alone: no state survives a call
+		RuleG1In(r, p, "encoding/bcd")
 	}
 
 	checks["C13"] = func(r *Report, p *Program, tier string) {
